@@ -19,6 +19,7 @@ import (
 )
 
 type vfPkt struct {
+	fail bool // the send callback returned an error for this write
 	zlb  bool
 	body string
 	sid  uint16
@@ -28,7 +29,10 @@ type vfPkt struct {
 
 type vfEnd struct {
 	ch    *ControlChannel
-	sent  []vfPkt
+	sent  []vfPkt        // writes that succeeded (what the network can carry)
+	tried []vfPkt        // every write of the current operation, failed ones included
+	wr    int            // writes issued during the current operation
+	fail  map[int]bool   // which of them fail
 	nsub  int
 	del   []string
 	acked []int
@@ -36,6 +40,8 @@ type vfEnd struct {
 }
 
 var vfBase = time.Unix(1000000, 0)
+
+var errVfWrite = fmt.Errorf("verif: transport write failed")
 
 func vfAt(ms int64) time.Time { return vfBase.Add(time.Duration(ms) * time.Millisecond) }
 
@@ -51,6 +57,14 @@ func vfNew(f []string, ns0, nr0 int) *vfEnd {
 	}
 	e.ch = NewControlChannel(cfg, func(body []byte, sessionID, ns, nr uint16) error {
 		p := vfPkt{zlb: len(body) == 0, body: string(body), sid: sessionID, ns: ns, nr: nr}
+		idx := e.wr
+		e.wr++
+		if e.fail[idx] {
+			p.fail = true
+			e.tried = append(e.tried, p)
+			return errVfWrite
+		}
+		e.tried = append(e.tried, p)
 		e.sent = append(e.sent, p)
 		return nil
 	}, func() { e.dead++ })
@@ -65,6 +79,9 @@ func vfPkts(l []vfPkt) string {
 		b := p.body
 		if p.zlb {
 			b = "z"
+		}
+		if p.fail {
+			b = "!" + b
 		}
 		s = append(s, fmt.Sprintf("%s.%d.%d.%d", b, p.sid, p.ns, p.nr))
 	}
@@ -140,13 +157,21 @@ func vfRunPair(f []string) string {
 			continue
 		}
 		before := len(e.sent)
+		// optional trailing fault token f<i>[.<k>...]: which writes of this operation fail
+		e.fail, e.wr, e.tried = map[int]bool{}, 0, nil
+		if last := a[len(a)-1]; len(last) > 1 && last[0] == 'f' && kind != 'x' {
+			for _, x := range strings.Split(last[1:], ".") {
+				e.fail[n(x)] = true
+			}
+			a = a[:len(a)-1]
+		}
 		var obs string
 		switch {
 		case kind == 's' && len(a) == 4:
 			sid := n(a[2])
 			_ = e.ch.SendSession([]byte(a[1]), uint16(sid), vfAt(int64(n(a[3]))))
 			e.nsub++
-			obs = "S" + vfPkts(e.sent[before:])
+			obs = "S" + vfPkts(e.tried)
 		case (kind == 'd' || kind == 'u') && len(a) == 3:
 			l := transit[x]
 			if len(l) == 0 {
@@ -160,7 +185,7 @@ func vfRunPair(f []string) string {
 			}
 			p := ends[other(x)].sent[idx]
 			h := vfDispatch(e, p, vfAt(int64(n(a[2]))))
-			obs = "D" + map[bool]string{true: "1", false: "0"}[h] + map[bool]string{true: "z", false: "m"}[p.zlb] + vfPkts(e.sent[before:])
+			obs = "D" + map[bool]string{true: "1", false: "0"}[h] + map[bool]string{true: "z", false: "m"}[p.zlb] + vfPkts(e.tried)
 		case kind == 'x' && len(a) == 2:
 			l := transit[x]
 			if len(l) == 0 {
@@ -174,7 +199,7 @@ func vfRunPair(f []string) string {
 		case kind == 'j' && len(a) == 6:
 			p := vfPkt{zlb: a[1] == "z", body: a[1], sid: uint16(n(a[2])), ns: uint16(n(a[3])), nr: uint16(n(a[4]))}
 			h := vfDispatch(e, p, vfAt(int64(n(a[5]))))
-			obs = "D" + map[bool]string{true: "1", false: "0"}[h] + map[bool]string{true: "z", false: "m"}[p.zlb] + vfPkts(e.sent[before:])
+			obs = "D" + map[bool]string{true: "1", false: "0"}[h] + map[bool]string{true: "z", false: "m"}[p.zlb] + vfPkts(e.tried)
 		case kind == 't' && len(a) == 2:
 			d0 := e.dead
 			ret := e.ch.Tick(vfAt(int64(n(a[1]))))
@@ -186,7 +211,7 @@ func vfRunPair(f []string) string {
 			if e.dead != d0 {
 				dd = "!"
 			}
-			obs = "T" + r + vfPkts(e.sent[before:]) + dd
+			obs = "T" + r + vfPkts(e.tried) + dd
 		case kind == 'w' && len(a) == 2:
 			e.ch.SetPeerWindow(n(a[1]))
 			obs = "W"
